@@ -517,7 +517,22 @@ def run_property(pid, mod, tier, seed, replay=None):
             mod.replay(ctx, case)
         else:
             try:
-                mod.run(ctx)
+                # global autograd mode: the properties hold whatever torch's grad mode is (all library parameters have
+                # requires_grad=False); quick tier: every third seed runs the whole check under torch.no_grad();
+                # thorough tier: a second full pass under no_grad after the ordinary one
+                import torch
+                nograd = os.environ.get("VERIF_NOGRAD")
+                if nograd == "1" or (nograd is None and not ctx.thorough and seed % 3 == 2):
+                    ctx.extra["torch_grad_mode"] = "no_grad (whole run)"
+                    with torch.no_grad():
+                        mod.run(ctx)
+                else:
+                    ctx.extra["torch_grad_mode"] = "default"
+                    mod.run(ctx)
+                    if ctx.thorough and nograd is None and not ctx.failures and not ctx.disagreements:
+                        ctx.extra["torch_grad_mode"] = "default, then a second pass under no_grad"
+                        with torch.no_grad():
+                            mod.run(ctx)
             except ModelError as e:
                 ctx.disagreements.append({"what": "model execution", "case": {}, "detail": str(e)})
         # ---- verdict
